@@ -65,6 +65,8 @@ const (
 	RoleStray   = "stray"   // a word outside every column
 	RoleNote    = "note"    // narrow margin-note column
 	RoleLone    = "lone"    // a lone glyph on a line of its own
+	RoleSuper   = "super"   // raised footnote mark
+	RoleGutter  = "gutter"  // word inside a gutter
 	RoleBodyRep = "bodyrep" // body line repeated on several pages of a Doc
 	RoleHeader  = "header"  // running header (Doc)
 	RoleFooter  = "footer"  // running footer text (Doc)
@@ -217,6 +219,8 @@ const (
 	FeatScale    = "scale"     // scaled coordinates
 	FeatChar     = "charlevel" // one fragment per glyph
 	FeatTwoBands = "twobands"  // two vertically stacked column sets
+	FeatSuper    = "super"     // raised, smaller footnote mark directly after a word
+	FeatGutter   = "gutter"    // short word inside the gutter between two columns
 )
 
 // Opts tunes GenPage.
@@ -247,6 +251,7 @@ type gen struct {
 	rtlLogical bool
 	spaceFrags bool
 	feat       map[string]bool
+	gutters    [][4]float64 // x0, x1, yBottom, yTop of every gutter at least 24 pt wide
 }
 
 func (g *gen) want(f string, drawn bool) bool {
@@ -471,6 +476,15 @@ func (g *gen) column(x0, x1, yTop, yBot float64, col int) {
 					avail *= float64(rapid.IntRange(70, 100).Draw(g.t, "ragged")) / 100
 				}
 				g.setLine(g.words(avail, g.size, max, Lower), lx, x1, y, g.size, align, RoleBody, col, false)
+				if g.want(FeatSuper, g.pct("superscript", 8)) {
+					// a footnote mark: 0.6 x size, raised by a third of the size, abutting the last word of the line
+					last := g.p.Frags[len(g.p.Frags)-1]
+					ss := r2(g.size * 0.6)
+					if last.Ln == g.ln {
+						g.p.Frags = append(g.p.Frags, Frag{T: strconv.Itoa(1 + g.k%9), X: r2(last.X + last.W), Y: r2(y + g.size*0.35), W: r2(Advance * ss), S: ss, Role: RoleSuper, Col: col, Ln: g.ln})
+						g.use(FeatSuper)
+					}
+				}
 				y -= g.lead - g.size
 			}
 		case "single":
@@ -690,6 +704,9 @@ func genBody(g *gen) {
 		for c := 0; c < nc; c++ {
 			x0 := bx0 + float64(c)*(cw+gut)
 			g.column(r2(x0), r2(x0+cw), y, yBot, c)
+			if c > 0 && gut >= 24 {
+				g.gutters = append(g.gutters, [4]float64{x0 - gut, x0, yBot, y})
+			}
 		}
 		yTop = yBot - 30
 	}
@@ -743,6 +760,16 @@ func finish(g *gen) {
 				p.Frags = append(p.Frags, Frag{T: g.tok(n, Lower), X: r2(x), Y: ref.Y, W: r2(w), S: g.size, Role: RoleStray, Col: -1, Ln: g.ln})
 				g.use(FeatStray)
 			}
+		}
+		// a short word centred in a gutter (a label on a column rule, a fold mark): 2-3 glyphs of 6 pt type
+		if len(g.gutters) > 0 && g.want(FeatGutter, g.pct("gutterWord", 10)) {
+			gt := g.gutters[rapid.IntRange(0, len(g.gutters)-1).Draw(t, "gutterOf")]
+			n := rapid.IntRange(2, 3).Draw(t, "gutterLen")
+			w := Advance * 6 * float64(n)
+			y := gt[2] + float64(rapid.IntRange(0, 100).Draw(t, "gutterY"))/100*(gt[3]-gt[2]-6)
+			g.ln++
+			p.Frags = append(p.Frags, Frag{T: g.tok(n, Lower), X: r2((gt[0] + gt[1] - w) / 2), Y: r2(y), W: r2(w), S: 6, Role: RoleGutter, Col: -1, Ln: g.ln})
+			g.use(FeatGutter)
 		}
 		// lone glyph narrower than 5 pt on a baseline of its own (footnote mark, folio)
 		if g.want(FeatLone, g.pct("lone", 12)) {
